@@ -16,7 +16,8 @@ func init() {
 		Explanation: "Byte-stream integrity for all sizes and segmentations is behavioural and not decided. Decided (each a necessary condition): " +
 			"(E) codec agreement of WebsocketNetConn: Write sends exactly one TextMessage carrying hex.EncodeToString of its own argument and reports len(argument); Read accepts exactly that message type (partial evaluation on the type), decodes with hex.DecodeString of the payload it just read, refills its buffer only when it is empty, hands out bytes from the front and keeps the remainder (re-slice from the consumed count), returning that count; " +
 			"(P) every function that bridges two connections starts exactly two copy goroutines io.Copy(a,b) / io.Copy(b,a) over the same two values and waits for exactly two Done()s; " +
-			"(H) the bridge handler passes anything that is not a websocket upgrade for the streaming path to the pass-through handler with its own (w, r) and does not upgrade it; the frontend dials a path ending in the same StreamingPath constant.",
+			"(H) the bridge handler passes anything that is not a websocket upgrade for the streaming path to the pass-through handler with its own (w, r) and does not upgrade it; the frontend dials a path ending in the same StreamingPath constant. " +
+			"(V) goroutines started per accepted connection capture no variable that lives outside the accept loop and is reassigned by it; the bridge backend's pass-through proxy is the stock NewSingleHostReverseProxy with only FlushInterval/Transport set; (M) no pooled buffers.",
 		Assumptions: []string{"gorilla/websocket delivers text messages whole and in order; encoding/hex round-trips; io.Copy writes everything it reads"},
 		Run:         runC15,
 	})
@@ -25,7 +26,8 @@ func init() {
 		Progs: []string{"mod"},
 		Explanation: "'Within bounded time' is not decided. Decided is the structural obstacle the property names: (K) in every function that bridges two connections with two copy goroutines, each goroutine — when its io.Copy returns, before it reports Done and independently of its sibling — closes the connections of the pair (directly or through a closure that closes them), so a close by one peer ends the other direction and is shown to the other peer; " +
 			"(D) every connection acquired in a bridging function (Upgrade, Dial, Accept, DialWebsocket) has a deferred Close that follows its successful acquisition. " +
-			"Not decided: delivery of in-flight data before the close, timing.",
+			"Not decided: delivery of in-flight data before the close, timing. " +
+			"(A) no SetLinger(≥0) on any bridge connection (an abortive close discards queued data and resets the peer); a net.Conn wrapper's Close either is the embedded connection's or takes no lock that another method holds across blocking network I/O.",
 		Assumptions: []string{"closing a net.Conn / websocket.Conn unblocks a Read pending on it and makes the peer observe end-of-stream"},
 		Run:         runC16,
 	})
